@@ -7,6 +7,8 @@ real BeamCXLine / BeamEmissionLine / Plasma are run on a real Beam + Plasma with
 atomic data (affine rate functions that log their arguments) and a recording line shape; the model of
 Model/C05_BeamModels.v is evaluated by Coq (vm_compute) on the same inputs and compared inside Coq:
 outcome kind exactly, radiance and every logged argument tuple at relative 2^-40.
+Besides single evaluations on fresh scenes, histories are run on ONE scene with live model instances that is mutated
+through the public API between evaluations; the (stateless) model is fed the configuration current at each evaluation.
 Search: the executable statement of the property on the implementation (c05_impl.property_failures).
 """
 import glob
@@ -22,10 +24,11 @@ THEOREMS = ["C05_weighted_mean_bounds", "C05_cx_rate_is_bounded_mean", "C05_popu
             "C05_zeff_formula", "C05_zeff_between", "C05_ion_density_formula",
             "C05_interaction_energy_frame"]
 
-SCALE_CX = 2.0 ** -112      # ~ 1.9e-34 W m^3
+SCALE_CX = 2.0 ** -112      # ~ 1.9e-34 W m^3          (the same constants are in c05_impl.py)
 SCALE_PEC = 2.0 ** -110
 UNIT5 = [1.0, 2.0 ** -16, 2.0 ** -10, 2.0 ** -64, 1.0, 1.0]     # E ~ 2^16, T ~ 2^10, n ~ 2^64
 UNIT3 = [1.0, 2.0 ** -16, 2.0 ** -64, 2.0 ** -10]               # E, n, T
+ATOMIC_NUMBERS = [1, 1, 1, 2, 3, 4, 5, 6, 7, 8, 10, 18]         # of c05_impl.ELEMENTS
 
 
 # ---------------------------------------------------------------------------------------------
@@ -73,7 +76,7 @@ def rnd_coeffs(rng, units, scale):
 
 def gen_species(rng, nel, exact, allow_neutral=True):
     ns = rng.choice([1, 1, 2, 2, 3, 3, 4, 5, 6])
-    atomic_numbers = [1, 1, 1, 2, 3, 4, 5, 6, 7, 8, 10, 18]
+    atomic_numbers = ATOMIC_NUMBERS
     keys = set()
     sps = []
     while len(sps) < ns:
@@ -176,6 +179,154 @@ def gen_case(rng, kind, nel):
 
 
 # ---------------------------------------------------------------------------------------------
+# histories: one scene, live models, mutations through the public API, an evaluation after each
+# ---------------------------------------------------------------------------------------------
+COMPOSITION_OPS = ["add_new", "assign", "set", "clear_readd"]
+BEAM_OPS = ["beam_energy", "beam_element", "beam_temperature", "beam_length", "attenuator"]
+OTHER_OPS = ["atomic_data", "cx_line", "b_field", "electron"]
+ALL_OPS = ["none", "add_existing"] + COMPOSITION_OPS + BEAM_OPS + OTHER_OPS
+
+
+def gen_one_species(rng, exact, el, ch, zero_prob=0.06):
+    vmax = rng.choice([0.0, 1e4, 1e5, 5e5])
+    return {"el": el, "charge": ch,
+            "n0": 0.0 if rng.random() < zero_prob else rnd_float(rng, 1e15, 1e20, exact),
+            "t0": rnd_float(rng, 1.0, 2e4, exact),
+            "v0": [0.0 if vmax == 0 else (rng.uniform(-vmax, vmax) if not exact else float(round(rng.uniform(-vmax, vmax))))
+                   for _ in range(3)]}
+
+
+def gen_new_key(rng, nel, keys, ionised=False):
+    while True:
+        el = rng.randrange(nel)
+        ch = rng.randint(1, ATOMIC_NUMBERS[el]) if ionised or rng.random() > 0.15 else 0
+        if (el, ch) not in keys:
+            return el, ch
+
+
+def gen_provider(rng):
+    nm = rng.choice([1, 2, 2, 3, 3, 4, 5])
+    ms = list(range(1, nm + 1))
+    rng.shuffle(ms)
+    return {"seed": rng.randrange(1 << 30), "rates": [{"m": m, "c": rnd_coeffs(rng, UNIT5, SCALE_CX)} for m in ms]}
+
+
+def gen_eval(rng, kind, exact, cfg, prev=None):
+    if prev is not None and rng.random() < 0.4:       # the same points as the previous evaluation
+        ev = dict(prev, kind=kind)
+        return ev
+    length = cfg["beam"]["length"]
+    bp = rnd_point(rng)
+    r = rng.random()
+    bp[2] = (rng.randint(1, 15) / 16.0 * length if r < 0.85 else length + 0.25 if r < 0.9 else -0.125 if r < 0.95 else length)
+    d = [rng.uniform(-1, 1) if not exact else rng.randint(-8, 8) / 8.0 for _ in range(3)]
+    if sum(abs(c) for c in d) < 0.2:
+        d[2] = 1.0
+    return {"kind": kind, "plasma_point": rnd_point(rng), "beam_point": bp, "dir": d}
+
+
+def mutate_species_list(rng, nel, exact, cfg):
+    """a new composition derived from the current one: some species dropped, some replaced, some new, shuffled;
+    the CX receiver is usually kept; at least one ion"""
+    rkey = (cfg["line"]["el"], cfg["line"]["charge"] + 1)
+    new = []
+    for s in cfg["species"]:
+        key = (s["el"], s["charge"])
+        if key != rkey and rng.random() < 0.3:
+            continue
+        if key == rkey and rng.random() < 0.12:
+            continue
+        new.append(gen_one_species(rng, exact, *key) if rng.random() < 0.6 else dict(s))
+    for _ in range(rng.choice([0, 1, 1, 2])):
+        if len(new) < 6:
+            new.append(gen_one_species(rng, exact, *gen_new_key(rng, nel, {(t["el"], t["charge"]) for t in new})))
+    if not any(t["charge"] >= 1 for t in new):
+        new.append(gen_one_species(rng, exact, *gen_new_key(rng, nel, {(t["el"], t["charge"]) for t in new}, ionised=True)))
+    rng.shuffle(new)
+    return new
+
+
+def gen_step(rng, nel, exact, cfg, op):
+    """the mutation `op` for the configuration cfg (cfg is updated to the configuration after the step)"""
+    step = {"op": op}
+    keys = [(s["el"], s["charge"]) for s in cfg["species"]]
+    if op == "add_existing":
+        rkey = (cfg["line"]["el"], cfg["line"]["charge"] + 1)
+        ions = [k for k in keys if k[1] >= 1]
+        key = rkey if rkey in keys and rng.random() < 0.5 else rng.choice(ions if ions and rng.random() < 0.85 else keys)
+        step["species"] = gen_one_species(rng, exact, key[0], key[1], zero_prob=0.3)
+        cfg["species"][keys.index(key)] = dict(step["species"])
+    elif op == "add_new":
+        step["species"] = gen_one_species(rng, exact, *gen_new_key(rng, nel, set(keys)))
+        cfg["species"].append(dict(step["species"]))
+    elif op in ("assign", "set", "clear_readd"):
+        step["species"] = mutate_species_list(rng, nel, exact, cfg)
+        cfg["species"] = [dict(s) for s in step["species"]]
+    elif op == "b_field":
+        step["b0"] = [rng.uniform(-4, 4) if not exact else rng.randint(-16, 16) / 4.0 for _ in range(3)]
+        cfg["b0"] = list(step["b0"])
+    elif op == "electron":
+        step["ne"], step["te"] = rnd_float(rng, 1e18, 1e20, exact), rnd_float(rng, 10.0, 5e3, exact)
+    elif op == "beam_energy":
+        step["energy"] = rnd_float(rng, 2e3, 1.2e5, exact)
+        cfg["beam"]["energy"] = step["energy"]
+    elif op == "beam_element":
+        step["element"] = 1 - cfg["beam"]["element"]
+        cfg["beam"]["element"] = step["element"]
+    elif op == "beam_temperature":
+        step["temperature"] = rnd_float(rng, 1.0, 100.0, exact)
+    elif op == "beam_length":
+        step["length"] = rng.choice([l for l in (0.5, 1.0, 2.0, 3.0) if l != cfg["beam"]["length"]])
+        cfg["beam"]["length"] = step["length"]
+    elif op == "attenuator":
+        step["att0"] = 0.0 if rng.random() < 0.2 else rnd_float(rng, 1e13, 1e17, exact)
+        cfg["beam"]["att0"] = step["att0"]
+    elif op == "atomic_data":
+        step["prov"] = gen_provider(rng)
+        cfg["prov"] = json.loads(json.dumps(step["prov"]))
+    elif op == "cx_line":
+        ions = [k for k in keys if k[1] >= 1 and k != (cfg["line"]["el"], cfg["line"]["charge"] + 1)]
+        if ions and rng.random() < 0.9:
+            k = rng.choice(ions)
+            step["line"] = {"el": k[0], "charge": k[1] - 1, "transition": [rng.randint(3, 12), 2]}
+        else:
+            step["line"] = dict(cfg["line"], transition=[rng.randint(3, 12), 2])
+        cfg["line"] = dict(step["line"])
+    return step
+
+
+def gen_history(rng, nel, nsteps):
+    exact = rng.random() < 0.5
+    sps = gen_species(rng, nel, exact)
+    ions = [s for s in sps if s["charge"] >= 1]
+    rs = rng.choice(ions)
+    beam, _, _ = gen_beam(rng, exact)
+    if beam["att0"] == 0.0:
+        beam["att0"] = rnd_float(rng, 1e13, 1e17, exact)
+    del beam["dir"]
+    cfg = {"exact": exact, "species": sps, "b0": [rng.uniform(-4, 4) if not exact else rng.randint(-16, 16) / 4.0 for _ in range(3)],
+           "beam": beam, "line": {"el": rs["el"], "charge": rs["charge"] - 1, "transition": [rng.randint(3, 12), 2]},
+           "prov": gen_provider(rng)}
+    hist = {"cfg": json.loads(json.dumps(cfg)), "steps": []}
+    # every history: both models evaluated first (caches populated), then one replacement of an existing species,
+    # one other composition route, one beam mutator, one of provider / line / field, and random further steps
+    ops = ["add_existing", rng.choice(COMPOSITION_OPS), rng.choice(BEAM_OPS), rng.choice(OTHER_OPS)]
+    ops += [rng.choice(ALL_OPS) for _ in range(max(0, nsteps - len(ops)))]
+    rng.shuffle(ops)
+    prev = gen_eval(rng, "cx", exact, cfg)
+    hist["steps"].append({"op": "none", "evals": [prev, dict(prev, kind="bes")]})
+    for op in ops:
+        step = gen_step(rng, nel, exact, cfg, op)
+        kinds = rng.choice([["cx"], ["bes"], ["cx", "bes"], ["cx", "bes"], ["cx", "plasma"], ["bes", "cx"]])
+        step["evals"] = []
+        for kind in kinds:
+            prev = gen_eval(rng, kind, exact, cfg, prev)
+            step["evals"].append(prev)
+        hist["steps"].append(step)
+    return hist
+
+
+# ---------------------------------------------------------------------------------------------
 # Coq text of a case
 # ---------------------------------------------------------------------------------------------
 def vlit(v):
@@ -223,6 +374,8 @@ def log_consistency(case, out):
     """discrete facts about the call log that the Coq comparison relies on (compared exactly)"""
     log = out["log"]
     bad = []
+    if out.get("stale_species"):
+        bad.append("rate objects of species %r were evaluated, which are not in the current composition" % (out["stale_species"],))
     if case["kind"] == "cx" and out["code"] == 1:
         cx = [l for l in log if l[0] == "cx"]
         if len({l[2] for l in cx}) > 1:
@@ -242,7 +395,8 @@ def log_consistency(case, out):
             bad.append("%d population-coefficient evaluations, expected %d ions x %d excited states" % (len(pops), nion, nexc))
         req = [l for l in log if l[0] == "request_cx"]
         ln = case["line"]
-        if len(req) != 1 or req[0][3] != ln["charge"] + 1 or tuple(req[0][4]) != tuple(ln["transition"]):
+        fresh = "_history" not in case          # a live model asks the provider only when its cache was cleared
+        if (len(req) != 1 and (fresh or req)) or any(r[3] != ln["charge"] + 1 or tuple(r[4]) != tuple(ln["transition"]) for r in req):
             bad.append("beam_cx_pec requested with %r" % (req,))
     if case["kind"] in ("cx", "bes") and out["code"] in (0, 1):
         att = [l for l in log if l[0] == "att"]
@@ -297,10 +451,12 @@ def run(ctx):
     # ---- cases: corpus first, then generated ----------------------------------------------------
     rng = ctx.rng
     nel = len(impl.ELEMENTS)
-    n_cx, n_bes, n_pl = (150, 60, 30) if ctx.quick else (4000, 1400, 600)
+    n_cx, n_bes, n_pl = (80, 30, 20) if ctx.quick else (4000, 1400, 600)
+    n_hist, n_steps = (14, 5) if ctx.quick else (150, 8)
     cases = []
     for p in sorted(glob.glob(os.path.join(VERIF, "corpus", "C05", "*.json"))):
-        cases.append(json.load(open(p))["case"])
+        if not os.path.basename(p).startswith("history_"):
+            cases.append(json.load(open(p))["case"])
     n_corpus = len(cases)
     if ctx.replay:
         # bin/check C05 quick --replay replays/C05-xxxx.json : the corpus and the recorded case only
@@ -310,22 +466,40 @@ def run(ctx):
         if rc:
             cases.append(rc)
             n_cx, n_bes, n_pl = [int(rc["kind"] == k) for k in ("cx", "bes", "plasma")]
+    histories = []
+    if ctx.replay and (rp.get("replay") or {}).get("history"):
+        histories.append(rp["replay"]["history"])
+    for p in sorted(glob.glob(os.path.join(VERIF, "corpus", "C05", "history_*.json"))):
+        histories.append(json.load(open(p))["history"])
     cases += [gen_case(rng, "cx", nel) for _ in range(n_cx if not ctx.replay else 0)]
     if not ctx.replay:
         cases += [gen_case(rng, "bes", nel) for _ in range(n_bes)]
         cases += [gen_case(rng, "plasma", nel) for _ in range(n_pl)]
+        histories += [gen_history(rng, nel, n_steps) for _ in range(n_hist)]
 
     outs, texts, search_fails, log_fails = [], [], [], []
-    for i, case in enumerate(cases):
-        ctx.crumb(case)
-        out = impl.run_case(case)
+
+    def record(i, case, out):
         outs.append(out)
         texts.append(coq_case(impl, case, out))
         for f in impl.property_failures(case, out, 1 / (4 * math.pi), e_charge, amu):
             search_fails.append((i, f))
         for f in log_consistency(case, out):
             log_fails.append((i, f))
-    ctx.log("implementation ran on %d cases (%d from the corpus)" % (len(cases), n_corpus))
+
+    for i, case in enumerate(cases):
+        ctx.crumb(case)
+        record(i, case, impl.run_case(case))
+    n_single = len(cases)
+    # ---- histories on one scene with live models ----------------------------------------------------
+    for hi, hist in enumerate(histories):
+        ctx.crumb({"history": hist})
+        for case, out, k in impl.run_history(hist):
+            case["_history"], case["_step"], case["_op"] = hi, k, hist["steps"][k]["op"]
+            cases.append(case)
+            record(len(cases) - 1, case, out)
+    ctx.log("implementation ran on %d single-evaluation cases (%d from the corpus) and %d histories (%d evaluations)"
+            % (n_single, n_corpus, len(histories), len(cases) - n_single))
 
     # ---- run the model in Coq -------------------------------------------------------------------
     files = []
@@ -358,8 +532,14 @@ def run(ctx):
     def slim(i):
         o = dict(outs[i])
         o["log"] = [list(l) for l in o["log"][:40]]
-        return {"case": cases[i], "implementation": o,
-                "how": "harness/c05_impl.py: run_case(case) then property_failures(case, out, 1/(4 pi), e, amu)"}
+        r = {"case": cases[i], "implementation": o,
+             "how": "harness/c05_impl.py: run_case(case) then property_failures(case, out, 1/(4 pi), e, amu)"}
+        if "_history" in cases[i]:
+            r["history"] = histories[cases[i]["_history"]]
+            r["how"] = ("harness/c05_impl.py: run_history(history); the failing evaluation is the one after step %d (%s); "
+                        "`case` is the configuration at that moment, against which the formulas are checked"
+                        % (cases[i]["_step"], cases[i]["_op"]))
+        return r
 
     reported = set()
     for i, f in search_fails:
@@ -388,18 +568,26 @@ def run(ctx):
             return o["code"] == 1 and sum(1 for s in c["species"] if s["charge"] >= 1) >= 2
         return o["code"] == 1 and len(c["species"]) >= 2
 
-    dist = {"cx": n_cx, "bes": n_bes, "plasma": n_pl, "corpus": n_corpus}
+    dist = {"cx": n_cx, "bes": n_bes, "plasma": n_pl, "corpus": n_corpus, "histories": len(histories),
+            "history_evaluations": len(cases) - n_single}
+    hcases = cases[n_single:]
     hist = lambda xs: {str(k): xs.count(k) for k in sorted(set(xs))}
     gen = cases[n_corpus:]
     gouts = outs[n_corpus:]
     ctx.coverage.update({
         "evaluations": len(cases),
         "distinct_nontrivial": len({json.dumps(c, sort_keys=True) for c, o in zip(cases, outs) if nontrivial(c, o)}),
-        "rule": "one case = one call of BeamCXLine.emission / BeamEmissionLine.emission / Plasma.z_effective+ion_density on a "
-                "freshly built Beam + Plasma; non-trivial = a line was emitted and (cx) at least one excited beam state / "
+        "rule": "one case = one call of BeamCXLine.emission / BeamEmissionLine.emission / Plasma.z_effective+ion_density, either on a "
+                "freshly built Beam + Plasma or as one evaluation of a history (one scene with live BeamCXLine and BeamEmissionLine, "
+                "mutated through composition.add of a new / an existing key, composition assignment, .set, .clear + re-add, "
+                "b_field, electron_distribution, beam.energy / element / temperature / length / attenuator, beam.atomic_data, "
+                "model.line; every evaluation is compared with the model fed the configuration current at that moment); non-trivial = a line was emitted and (cx) at least one excited beam state / "
                 "(bes, plasma) at least two species take part; distinct = distinct input dictionaries",
         "distribution": {
             "kinds": dist,
+            "history_evaluations_after_op": hist([c["_op"] for c in hcases]),
+            "history_evaluation_kinds": hist([c["kind"] for c in hcases]),
+            "history_steps_per_history": hist([len(h["steps"]) for h in histories]),
             "species_per_case": hist([len(c["species"]) for c in gen]),
             "cases_with_neutral_species": sum(1 for c in gen if any(s["charge"] == 0 for s in c["species"])),
             "cases_with_flow": sum(1 for c in gen if any(any(s["v0"]) for s in c["species"])),
